@@ -3,6 +3,7 @@ import itertools
 import json
 
 from props import names_common as nc
+from props import c13_entries as ce
 
 ENGINE = "names"
 RULE = ("the repository's BibTeX-derived corpus first (REGULAR_NAME_PARTS_PARSING_TEST_CASES and the strict-mode cases of "
@@ -20,6 +21,15 @@ RULE = ("the repository's BibTeX-derived corpus first (REGULAR_NAME_PARTS_PARSIN
         "and in names with braces/escapes, realistic names wrapped over two lines with LF / CRLF / CR line ends, the same names "
         "through SplitNameParts (streams ws-middleware, ws-library) and through parse_string on bib texts with LF / CRLF / CR line "
         "ends + SeparateCoAuthors + SplitNameParts (stream ws-text, oracle only). "
+        "ENTRIES THE PARSER NEVER PRODUCES BUT THE MODEL ALLOWS (harness/props/c13_entries.py, level ent): the same name-field key "
+        "twice or three times with different names (stream dup-keys), keys differing in case only, with and without the capitalised "
+        "key in name_fields (dup-case), several name fields of which a LATER one holds an invalid name (later-invalid), lists of "
+        "NameParts next to plain lists / strings with the stack restricted to its fields by name_fields or not (structured), the inner "
+        "entry of the DuplicateFieldKeyBlock that parse_string hands out for a duplicated key (dup-parser), ONE stack of middleware "
+        "objects over a library of 2-3 such entries (dup-library, oracle only); stacks of SeparateCoAuthors / MergeCoAuthors / "
+        "SplitNameParts / MergeNameParts starting on strings, lists or NameParts, in-place and copy mode: every field must come out "
+        "with what ITS OWN value gives; an invalid name gives a MiddlewareErrorBlock retaining the entry, the offending field and all "
+        "non-name fields unchanged, every other name field unchanged or transformed from its own value. "
         "distinct = distinct (text, strict flag) or (entry, middleware) or (libraries); non-trivial = at least two words, or a brace/backslash/"
         "comma, or an invalid name")
 TRUSTED = ["independent Python transcription of BibTeX's name algorithm (harness/props/names_common.py: spec_parse), validated at "
@@ -102,6 +112,8 @@ def generate(rng, tier):
         cases.append({"stream": "middleware", "input": {"level": "mw", "fields": fields, "mws": mws}})
     cases.extend(library_cases(rng, 1500 if tier == "quick" else 15000, pn, pool))
     cases.extend(whitespace_cases(rng, tier, seen))
+    # appended after every earlier stream, so that those keep their inputs
+    cases.extend(ce.entry_class_cases(rng, tier, pn, pool))
     return cases
 
 
@@ -331,7 +343,9 @@ def whitespace_cases(rng, tier, seen):
 
 def shrink(case):
     inp = case["input"]
-    if inp["level"] == "fn":
+    if inp["level"] == "ent":
+        yield from ce.shrink(case)
+    elif inp["level"] == "fn":
         s = inp["s"]
         for i in range(len(s)):
             yield {"stream": case.get("stream", "?"), "input": {"level": "fn", "s": s[:i] + s[i + 1:], "strict": inp["strict"]}}
@@ -480,6 +494,8 @@ def impl(case):
         return impl_lib(inp, implutil)
     if inp["level"] == "text":
         return impl_text(inp, implutil)
+    if inp["level"] == "ent":
+        return ce.impl(inp, implutil, enc)
     # ---- middleware level
     from bibtexparser.library import Library
     from bibtexparser.model import Entry, Field
